@@ -168,6 +168,14 @@ impl Sys {
         if case % 3 == 2 {
             policy.filter = shadowed_permissive_filter();
         }
+        // every second case under a finite node-wide velocity limit, far above what the histories approve
+        // (so every ordinary approval passes) and below the amount of Op::RefusedApproval
+        if case % 2 == 1 {
+            policy.global_velocity_control = lightning_signer::util::velocity::VelocityControlSpec {
+                limit_msat: VELOCITY_LIMIT_MSAT,
+                interval_type: lightning_signer::util::velocity::VelocityControlIntervalType::Daily,
+            };
+        }
         let mut seed = [0u8; 32];
         seed[0] = (case % 251) as u8;
         seed[1] = 0xa7;
@@ -506,7 +514,13 @@ enum Op {
     /// the node force-closes channel i: the signer signs the current holder commitment; the HTLCs
     /// of that commitment stay in flight (they are resolved on-chain later)
     ForceClose(usize),
+    /// a keysend for hash h that the node-wide velocity limit refuses (amount above the whole limit): not a
+    /// request of the models (they have no velocity control); it must change nothing (C10), and the hash stays
+    /// without approval and without payment record for what follows (C06)
+    RefusedApproval(u64),
 }
+
+const VELOCITY_LIMIT_MSAT: u64 = 1_000_000_000_000_000;
 
 fn run_case(case: usize, nch: usize, script: Option<Vec<Op>>, rng: &mut Rng, len: usize) -> serde_json::Value {
     let mut sys = Sys::new(case, nch);
@@ -591,6 +605,10 @@ fn run_case(case: usize, nch: usize, script: Option<Vec<Op>>, rng: &mut Rng, len
                         }
                     }
                     19 if nch >= 2 && closed.is_none() && rng.chance(1, 3) => Op::ForceClose(i),
+                    19 | 16 if case % 2 == 1 && rng.chance(1, 2) && HASHES.iter().any(|h| !invoices.contains_key(h)) => {
+                        let free: Vec<u64> = HASHES.iter().cloned().filter(|h| !invoices.contains_key(h)).collect();
+                        Op::RefusedApproval(*rng.pick(&free))
+                    }
                     _ => Op::Restart,
                 }
             }
@@ -631,6 +649,7 @@ fn run_case(case: usize, nch: usize, script: Option<Vec<Op>>, rng: &mut Rng, len
             Op::Heartbeat => ("JHeartbeat".to_string(), 0, 0, 0),
             Op::Restart => ("JRestart".to_string(), 0, 0, 0),
             Op::Invoice(_, _) => (String::new(), 3, 0, 0),
+            Op::RefusedApproval(_) => (String::new(), 9, 0, 0),
             Op::ForceClose(i) => {
                 let e = sys.estate(*i);
                 let n = e.next_holder_commit_num.saturating_sub(1);
@@ -701,6 +720,13 @@ fn run_case(case: usize, nch: usize, script: Option<Vec<Op>>, rng: &mut Rng, len
                         seen.push(*h);
                     }
                     (format!("PAddInvoice {} {}", h, a), json!(["add_invoice", h, a]), r, false)
+                }
+                Op::RefusedApproval(h) => {
+                    let r = sys.node.add_keysend(payee, ph(*h), 2 * VELOCITY_LIMIT_MSAT).unwrap_or(false);
+                    if r {
+                        invoices.insert(*h, 2 * VELOCITY_LIMIT_MSAT); // (an approval after all: the models are told)
+                    }
+                    (format!("PAddInvoice {} {}", h, 2 * VELOCITY_LIMIT_MSAT), json!(["keysend_above_the_velocity_limit", h]), r, false)
                 }
                 Op::SignCpOff(i, c, off) => {
                     let r = sys.sign_cp(*i, c, *off);
@@ -817,8 +843,10 @@ fn run_case(case: usize, nch: usize, script: Option<Vec<Op>>, rng: &mut Rng, len
                 }
             }
         }
-        {
+        let outside_models = matches!(op, Op::RefusedApproval(_)) && !ok;
+        if !outside_models {
             let (jop, kind, a, b) = jpre;
+            let kind = if kind == 9 { 3 } else { kind };
             // an approval: the amount is the one the signer was given (that of the BOLT11 invoice)
             let jop = if kind == 3 { coq.replacen("PAddInvoice", "JAddInvoice", 1) } else { jop };
             let outp = if !ok {
@@ -842,7 +870,7 @@ fn run_case(case: usize, nch: usize, script: Option<Vec<Op>>, rng: &mut Rng, len
             if ok {
                 closed = Some(*i);
             }
-        } else {
+        } else if !outside_models {
             ops.push(coq);
             obs.push(format!("({}, {})", coq_bool(ok), sys.observe()));
         }
